@@ -19,6 +19,13 @@ UNITS = {
     's_c07l': dict(cpp='harness/s_session.cpp', coroutines=('T_reader_open', 'T_remover_session', 'T_epoch'), inline_all=True, sessions=2, cdefs=('YK_VAL_CAP=16', 'YK_MAX_SLEEPS=2', 'YK_NALLOC=3', 'YK_DRAIN_ROUNDS=1')),
     's_c01_gr': dict(cpp='harness/s_point.cpp', coroutines=('T_get0', 'T_remove1'), inline_all=True, cdefs=('YK_VAL_CAP=16', 'YK_NALLOC=4', 'YK_DRAIN_ROUNDS=2'), cuts=('delete_ofILb0', 'get_child_of', 'interior_node9delete_of', '9delete_ofEPvPNS_13tree_instanceEPNS_9base_nodeE')),
     'n_misc': dict(cpp='harness/n_misc.cpp', cdefs=('YK_VAL_CAP=64',)),
+    # scan on T0/T1: no interior node, no vector growth (the harness reserves), no retry clean-up (single thread)
+    'n_scan': dict(cpp='harness/n_scan.cpp', cdefs=('YK_VAL_CAP=16', 'YK_NALLOC=12', 'YK_ARR_CAP=4', 'YK_MEMCPY_CAP=16', 'YK_MEMCMP_CAP=16'), defines=('YK_KEYB=2',),
+                   cuts=('get_child_of', '17_M_realloc_insert', '8_M_eraseEN')),
+    'n_scan2': dict(cpp='harness/n_scan.cpp', cdefs=('YK_VAL_CAP=16', 'YK_NALLOC=16', 'YK_ARR_CAP=6', 'YK_MEMCPY_CAP=16', 'YK_MEMCMP_CAP=16', 'YK_MAX_LAYERS=2'),
+                    cuts=('get_child_of', '17_M_realloc_insert', '8_M_eraseEN'), defines=('YK_KEYB=2',)),
+    'n_scan3': dict(cpp='harness/n_scan.cpp', cdefs=('YK_VAL_CAP=16', 'YK_NALLOC=16', 'YK_ARR_CAP=6', 'YK_MEMCPY_CAP=16', 'YK_MEMCMP_CAP=16'),
+                    cuts=('17_M_realloc_insert', '8_M_eraseEN'), defines=('YK_KEYB=2',)),
     'k_value': dict(cpp='harness/k_value.cpp', cdefs=('YK_VAL_CAP=48',)),
 }
 
@@ -47,12 +54,40 @@ _T1_SPLIT_T = [H('n_t1s', 'H_t1_split_probe', 'same step: real get of a symbolic
                H('n_t1s', 'H_t1_split_probe_scr', 'same with scrambled slots', T15, tier='thorough', data=16, timeout=3400)]
 _T1_BIG = _T1_SPLIT_Q + _T1_SPLIT_T
 
+SCANREQ = 'request fully symbolic: l_key/r_key 0..10 bytes, all 9 endpoint-kind pairs, max_size 0..entries+1, both directions (incl. every ERR_BAD_USAGE combination)'
+KEYB2 = '; key bytes: the first 2 bytes of every 8-byte slice symbolic (all lengths 0..8 / prefixes / 0x00 padding cases), the rest 0x00'
+_SCAN_Q = [
+    H('n_scan', 'H_scan_t0', 'real scan on a storage without root: OK_ROOT_IS_NULL / ERR_BAD_USAGE exactly as documented', SCANREQ, data=1),
+    H('n_scan', 'H_scan_t0d', 'real scan on the empty deleted root: OK + empty result, node set = {root border}', SCANREQ, data=1),
+    H('n_scan', 'H_scan_t1_n1', 'real scan<char> on T1(1) vs reference interval filter (order, keys, values, lengths, truncation, direction, bad usage)', 'T1(1); ' + SCANREQ + KEYB2, data=1),
+    H('n_scan', 'H_scan_t1_n2', 'same on T1(2), scrambled slots', 'T1(2); ' + SCANREQ + KEYB2, data=1, timeout=900),
+    H('n_scan3', 'H_scan_t3_11', 'same on an interior root over two borders (scan crosses a node boundary; INF must ignore its key)', 'T3(2;1,1); ' + SCANREQ + KEYB2, data=2, timeout=1500),
+    H('n_scan2', 'H_scan_t2_a1m1', 'same on two layers: root border with one link -> layer-1 border (endpoint translation between layers)', 'T2(1;1): keys of 8..16 bytes; ' + SCANREQ + KEYB2, data=1, recursion=2, timeout=1500),
+]
+_SCAN_T = [
+    H('n_scan', 'H_scan_t1_n3', 'scan on T1(3)', 'T1(3); ' + SCANREQ + KEYB2, data=1, tier='thorough', timeout=3400),
+    H('n_scan3', 'H_scan_t3_12', 'scan on T3(2;1,2)', 'T3(2;1,2); ' + SCANREQ + KEYB2, data=2, tier='thorough', timeout=3400),
+    H('n_scan2', 'H_scan_t2_a2l0m1', 'scan on T2: value entry after the link', 'T2(2,link first;1); ' + SCANREQ + KEYB2, data=1, recursion=2, tier='thorough', timeout=3400),
+    H('n_scan2', 'H_scan_t2_a2l1m2', 'scan on T2: value entry before the link, two sub-entries', 'T2(2,link last;2); ' + SCANREQ + KEYB2, data=1, recursion=2, tier='thorough', timeout=3400),
+]
+_C05_SCAN_Q = [
+    H('n_scan', 'H_c05_scan_put_t1_n1', 'scan with node_version_vec on T1(1), then the real insert of an absent key of the covered interval: some collected pair is stale; set never empty', 'T1(1); ' + SCANREQ + KEYB2, data=1, timeout=900),
+    H('n_scan2', 'H_c05_scan_put_t2_a1m1', 'same on two layers (the read may end on / inside the link; the new key may land in the border that contributed only the link)', 'T2(1;1); ' + SCANREQ + KEYB2, data=1, recursion=2, timeout=1800),
+    H('n_scan3', 'H_c05_scan_put_t3_11', 'same across a node boundary', 'T3(2;1,1); ' + SCANREQ + KEYB2, data=2, timeout=1800),
+]
+_C05_SCAN_T = [
+    H('n_scan', 'H_c05_scan_put_t1_n2', 'scan + insert on T1(2)', 'T1(2); ' + SCANREQ + KEYB2, data=1, tier='thorough', timeout=3400),
+    H('n_scan2', 'H_c05_scan_put_t2_a1m2', 'scan + insert on T2(1;2)', 'T2(1;2); ' + SCANREQ + KEYB2, data=1, recursion=2, tier='thorough', timeout=3400),
+    H('n_scan2', 'H_c05_scan_put_t2_a2l1m1', 'scan + insert on T2(2;1)', 'T2(2;1); ' + SCANREQ + KEYB2, data=1, recursion=2, tier='thorough', timeout=3400),
+]
+
 REGISTRY = {
+    'C03': _SCAN_Q + _SCAN_T,
     'C05': [
         H('n_t1', 'H_c05_get_miss_put_n1', 'get miss with checked_version on T1(1), then the real insert of that key: the recorded pair is stale', T1B),
         H('n_t1', 'H_c05_get_miss_put_n3', 'same on T1(3), scrambled slots', T1B),
         H('n_t1', 'H_c05_get_miss_put_t0d', 'same on the empty deleted root: the pair is never empty for an existing storage', 'all keys 0..8 bytes'),
-    ] + [H('n_t1', 'H_t1_get_n%s' % n, 'get miss reports (stable version, node) of the border it examined', T1B) for n in ('1', '2', '3')],
+    ] + [H('n_t1', 'H_t1_get_n%s' % n, 'get miss reports (stable version, node) of the border it examined', T1B) for n in ('1', '2', '3')] + _C05_SCAN_Q + _C05_SCAN_T,
     'C11': [
         H('n_c16', 'H_c16_two_cycles', 'init; retire; [leave]; fin; init; fin: fin() releases what sessions retired (also with a session left open) and the thread objects', 'sessions=2; 2 cycles'),
     ] + _T1_PUT + _T1_REMOVE,
